@@ -638,10 +638,19 @@ def run(chk):
     chk.control('C13.guid.element', {c for c in rx.class_chars(rx.parse('[a-e0-9]'))} != HEX)
     chk.control('C13.guid.wrap', ('{' + G + G + '}').count(G) != 1)
     chk.control('C13.guid.case', not compiled_ignorecase(ev, 'regex.S'))
-    ctl = ast.parse("class P:\n    def parse(self, e):\n        r = ParseResult(e)\n        r.resolution_str = e.text\n        return r\n")
-    chk.control('C13.value.ip', 'drop_leading_zeros' not in ast.unparse(ctl))
-    chk.control('C13.value.text', 'SRC.other' != 'SRC.text')
-    chk.control('C13.model', not (None is not None))
+    from ..index import Cls
+    pmod = idx.mod('recognizers_sequence.sequence.parsers')
+    ctl = Cls(pmod, ast.parse("class P:\n    def parse(self, e):\n        r = ParseResult(e)\n        r.resolution_str = e.text\n"
+                              "        return r\n").body[0])
+    chk.control('C13.value.ip', parse_fields(ev, ctl)[2].get('resolution_str') != 'self.drop_leading_zeros(SRC.text)')
+    ctl = Cls(pmod, ast.parse("class P:\n    def parse(self, e):\n        r = ParseResult(e)\n        r.resolution_str = e.type\n"
+                              "        return r\n").body[0])
+    chk.control('C13.value.text', parse_fields(ev, ctl)[2].get('resolution_str') != 'SRC.text')
+    mmod = idx.mod('recognizers_sequence.sequence.models')
+    ctl = Cls(mmod, ast.parse("class M:\n    def parse(self, q):\n        for p in self.x(q):\n            m = R()\n            m.text = p.text\n"
+                              "            m.resolution = self.get_resolution(p)\n    def get_resolution(self, d):\n"
+                              "        return {'value': d.text}\n").body[0])
+    chk.control('C13.model', model_facts(ev, ctl)['value_src'] != 'resolution_str')
     chk.exhaustive = True
 
 
